@@ -546,8 +546,27 @@ class Program:
             fr.ret = E(fr.ret)
         fr.returns = [(tuple(E(c) for c in cs), E(t)) for cs, t in fr.returns]
         fr.raises = [(tuple(E(c) for c in cs), E(t), n) for cs, t, n in fr.raises]
-        fr.effects = [(tuple(E(c) for c in cs), E(t), n) for cs, t, n in fr.effects]
-        for lid, lp in self.loops.items():
+        # a helper called for its effect (typically an extracted guard: `_fail_if_duplicates(names)`): its raise sites and
+        # its own effect statements become raise sites / effects of the caller, under the caller's path conditions
+        new_effects, merged = [], False
+        for cs, t, n in fr.effects:
+            hfr = self._helper_frame(t, skip)
+            if hfr is not None and (hfr.stores or any(v != ("param", hfr.qualname, p) and is_term(v) and v[0] in ("mut", "setattr", "setitem", "call")
+                                                      and v[0] != "call" for p, v in hfr.env.items() if p in hfr.params)):
+                hfr = None  # works in place on its arguments: stays an opaque effect of the caller
+            if hfr is None or hfr.unsupported:
+                new_effects.append((tuple(E(c) for c in cs), E(t), n))
+                continue
+            merged = True
+            cs2 = tuple(E(c) for c in cs)
+            for hc, exc, _hn in hfr.raises:
+                fr.raises.append((cs2 + tuple(E(c) for c in hc), E(exc), n))
+            for hc, ht, _hn in hfr.effects:
+                new_effects.append((cs2 + tuple(E(c) for c in hc), E(ht), n))
+        fr.effects = new_effects
+        if merged:
+            fr.raises.sort(key=lambda r: getattr(r[2], "lineno", 0))
+        for lid, lp in list(self.loops.items()):
             if lp.func == fr.qualname and "@" not in lid:
                 lp.iter = E(lp.iter)
                 lp.init = {k: E(v) for k, v in lp.init.items()}
@@ -558,6 +577,25 @@ class Program:
                 info, snapshot, conds = self.closures[cid]
                 self.closures[cid] = (info, {k: E(v) for k, v in snapshot.items()}, tuple(E(c) for c in conds))
                 self._closure_frames.pop(cid, None)
+
+    def _helper_frame(self, call, skip):
+        """Frame of a module-level lcm helper called by `call` (arguments bound), or None."""
+        if not (is_term(call) and call[0] == "call" and is_term(call[1]) and call[1][0] == "func" and call[1][1] not in skip):
+            return None
+        info = self.funcs.get(call[1][1])
+        if info is None or info.parent is not None or info.cls is not None or info.node.decorator_list \
+                or not info.qualname.startswith("lcm."):
+            return None
+        bind = _bind_args(info.node, call[2], call[3], False)
+        if bind is None:
+            return None
+        key = ("frame", call[1], call[2], call[3])
+        if key in self._inline_cache:
+            return self._inline_cache[key]
+        self._inline_cache[key] = None
+        hfr = self.frame(call[1][1], bind=bind)
+        self._inline_cache[key] = hfr
+        return hfr
 
     def closure_frame(self, cid: int, bind: dict | None = None) -> Frame:
         if bind is None and cid in self._closure_frames:
@@ -573,6 +611,8 @@ class Program:
         ev.bind_params(info.node, bind)
         ev.block(info.node.body)
         ev.finish()
+        if bind is None and info.module not in getattr(self, "extra", set()) and cid not in self.variant_closures:
+            self._see_through_helpers(fr)  # helpers called inside a nested function are seen through as well
         return fr
 
     # ---------------------------------------------------------------- function values
@@ -1310,7 +1350,11 @@ class _Exec:
         kind = {ast.ListComp: "list", ast.SetComp: "set", ast.GeneratorExp: "gen",
                 ast.DictComp: "dict"}[type(e)]
         self.bv_depth += 1
-        depth = self.bv_depth
+        # bound variables get a unique id while the expression is under construction (a comprehension value that is
+        # inlined from an enclosing scope must not capture them); the finished outermost binder is renumbered by
+        # nesting level (canon_bv), which makes alpha-equivalent comprehensions equal terms
+        self.p._bv_serial = getattr(self.p, "_bv_serial", 0) + 1  # noqa: SLF001
+        depth = f"u{self.p._bv_serial}"  # noqa: SLF001
         sc: dict = {}
         self.comp_scopes.append(sc)
         gens = []
@@ -1339,7 +1383,67 @@ class _Exec:
             elt = self.expr(e.elt)
         self.comp_scopes.pop()
         self.bv_depth -= 1
-        return ("comp", kind, elt, tuple(gens))
+        r = ("comp", kind, elt, tuple(gens))
+        return canon_bv(r) if self.bv_depth == 0 else r
+
+
+def canon_bv(t):
+    """Bound variables numbered by the HEIGHT of the comprehension that binds them (1 for a comprehension without
+    nested comprehensions, otherwise 1 + the largest height inside it).  The numbering of a closed sub-term does
+    not depend on where the sub-term occurs, so a value keeps its identity when it is used inside another
+    comprehension, and alpha-equivalent comprehensions are equal terms."""
+    return _canon_bv(t)[0]
+
+
+def _canon_bv(t):
+    if not isinstance(t, tuple):
+        return t, 0
+    if is_term(t) and t[0] == "comp" and len(t) == 4:
+        h = 0
+        gens = []
+        for tg, it, conds in t[3]:
+            it2, h1 = _canon_bv(it)
+            cs = []
+            for c in conds:
+                c2, h2 = _canon_bv(c)
+                cs.append(c2)
+                h = max(h, h2)
+            h = max(h, h1)
+            gens.append((tg, it2, tuple(cs)))
+        if t[1] == "dict":
+            (k2, hk), (v2, hv) = _canon_bv(t[2][0]), _canon_bv(t[2][1])
+            elt, h = (k2, v2), max(h, hk, hv)
+        else:
+            elt, he = _canon_bv(t[2])
+            h = max(h, he)
+        h += 1
+        mapping = {}
+        k = 0
+        for tg, _it, _cs in gens:
+            for b in ([x for x in walk(tg) if x[0] == "bv"] if is_term(tg) else []):
+                if b not in mapping:
+                    mapping[b] = ("bv", h, k)
+                    k += 1
+        if all(key == val for key, val in mapping.items()):
+            return ("comp", t[1], elt, tuple(gens)), h
+        return _rename_bv(("comp", t[1], elt, tuple(gens)), mapping), h
+    out, h = [], 0
+    for x in t:
+        if isinstance(x, tuple):
+            x2, hx = _canon_bv(x)
+            out.append(x2)
+            h = max(h, hx)
+        else:
+            out.append(x)
+    return tuple(out), h
+
+
+def _rename_bv(t, mapping):
+    if not isinstance(t, tuple):
+        return t
+    if is_term(t) and t[0] == "bv" and len(t) == 3:
+        return mapping.get(t, t)
+    return tuple(_rename_bv(x, mapping) if isinstance(x, tuple) else x for x in t)
 
 
 def _load(node):
